@@ -82,7 +82,7 @@ impl World for StateWorld {
         [FL_LOCAL, FL_SYNC, FL_CHECKED, FL_SHARED, FL_SHARED_CHECKED].iter().map(|&flavour| Cfg { flavour, mode: 0, x: 0, y: 0, k }).collect()
     }
     fn enum_configs(&self, tier: Tier) -> Vec<(Cfg, usize)> {
-        let (k, d) = if tier == Tier::Quick { (2, 7) } else { (2, 11) };
+        let (k, d) = if tier == Tier::Quick { (2, 9) } else { (2, 12) };
         vec![(Cfg { flavour: FL_CHECKED, mode: 0, x: 0, y: 0, k }, d), (Cfg { flavour: FL_SHARED_CHECKED, mode: 0, x: 0, y: 0, k }, d)]
     }
     fn specs(&self, cfg: &Cfg) -> Vec<OpSpec> {
@@ -621,7 +621,9 @@ fn run_m<M: RawMutex + 'static>(cfg: &Cfg, ops: &[Op], run: &mut Run) {
     let ids = payload::ids();
     if let Err(msg) = lib_call(|| drop(chan_owner)) {
         run.violate("C01", "panic", format!("dropping the channel panicked: {}", msg));
-        return;
+        if run.failed() {
+            return;
+        }
     }
     for id in 0..ids as u16 {
         let live = payload::live(id);
@@ -631,7 +633,9 @@ fn run_m<M: RawMutex + 'static>(cfg: &Cfg, ops: &[Op], run: &mut Run) {
                 "value-lifecycle",
                 format!("value v{}: {} clones, {} drops after the channel and all futures are gone ({} live instances)", id, payload::clones(id), payload::drops(id), live),
             );
-            return;
+            if run.failed() {
+                return;
+            }
         }
     }
 }
@@ -643,18 +647,24 @@ fn monitors<M: RawMutex + 'static>(chan: &Chan<M>, m: &Model, slots: &[Slot<RFut
             let q = s.num as i32 - 1;
             if q < m.latest() {
                 run.violate("C13", "stranded-behind", format!("slot {} waits for something newer than publication #{}, publication #{} exists, and it has not been woken through its latest waker", i, q, m.latest()));
-                return;
+                if run.failed() {
+                    return;
+                }
             }
             if m.closed {
                 run.violate2("C11", "C13", "not-woken-after-close", format!("slot {} is pending on a closed channel and has not been woken through its latest waker", i));
-                return;
+                if run.failed() {
+                    return;
+                }
             }
         }
     }
     for id in m.pubs.iter() {
         if payload::live(*id) < 0 {
             run.violate("C13", "value-lifecycle", format!("value v{} was dropped more often than it was created and cloned", id));
-            return;
+            if run.failed() {
+                return;
+            }
         }
     }
     for (i, s) in slots.iter().enumerate() {
@@ -665,7 +675,9 @@ fn monitors<M: RawMutex + 'static>(chan: &Chan<M>, m: &Model, slots: &[Slot<RFut
             }
             if t != s.done {
                 run.violate("C17", "is_terminated-mismatch", format!("slot {}: is_terminated() == {} but completed == {}", i, t, s.done));
-                return;
+                if run.failed() {
+                    return;
+                }
             }
         }
     }
